@@ -78,11 +78,20 @@ TokStep(s, i, lb) ==
       [] r = "Letter" -> <<i + 1, <<Zero, Num(NatDigits(lb + ToLower(s[i]) - 96))>>, <<>>>>
       [] r = "Skip"   -> <<i + 1, <<>>, <<>>>>
 
-RECURSIVE TokFrom(_, _, _, _, _)
-TokFrom(s, i, ver, rev, lb) ==
+\* the fold of TokStep over the positions of s (positions inside a token already consumed
+\* are skipped); TokFromRef is the same as a recursion
+TokFromV(s, i0, ver0, rev0, lb) ==
+    LET step(st, i) == IF i < st[1] THEN st
+                       ELSE LET t == TokStep(s, i, lb)
+                            IN <<t[1], st[2] \o t[2], IF t[3] = <<>> THEN st[3] ELSE t[3][1]>>
+        r == FoldL(step, <<i0, ver0, rev0>>, SubSeq(Idx(s), i0, Len(s)))
+    IN [ver |-> r[2], rev |-> r[3]]
+TokFrom(s, i0, ver0, rev0, lb) == Let1(s, LAMBDA x : TokFromV(x, i0, ver0, rev0, lb))
+RECURSIVE TokFromRef(_, _, _, _, _)
+TokFromRef(s, i, ver, rev, lb) ==
     IF i > Len(s) THEN [ver |-> ver, rev |-> rev]
     ELSE LET st == TokStep(s, i, lb)
-         IN TokFrom(s, st[1], ver \o st[2], IF st[3] = <<>> THEN rev ELSE st[3][1], lb)
+         IN TokFromRef(s, st[1], ver \o st[2], IF st[3] = <<>> THEN rev ELSE st[3][1], lb)
 
 TokL(s, lb) == TokFrom(s, 1, <<>>, <<>>, lb)
 Tok(s)      == TokL(s, 0)
@@ -93,11 +102,15 @@ Tok(s)      == TokL(s, 0)
 (***************************************************************************)
 At(v, i) == IF i <= Len(v) THEN v[i] ELSE Zero
 
-RECURSIVE VecCmpFrom(_, _, _)
-VecCmpFrom(a, b, i) ==
+VecCmpFromV(a, b, i0) ==
+    LET i == FirstWhere(i0, MaxOf(Len(a), Len(b)), LAMBDA j : CompCmp(At(a, j), At(b, j)) # 0)
+    IN IF i = 0 THEN 0 ELSE CompCmp(At(a, i), At(b, i))
+VecCmpFrom(a, b, i0) == Let2(a, b, LAMBDA x, y : VecCmpFromV(x, y, i0))
+RECURSIVE VecCmpFromRef(_, _, _)
+VecCmpFromRef(a, b, i) ==
     IF i > MaxOf(Len(a), Len(b)) THEN 0
     ELSE LET c == CompCmp(At(a, i), At(b, i))
-         IN IF c # 0 THEN c ELSE VecCmpFrom(a, b, i + 1)
+         IN IF c # 0 THEN c ELSE VecCmpFromRef(a, b, i + 1)
 
 CmpTok(ta, tb) == LET c == VecCmpFrom(ta.ver, tb.ver, 1)
                   IN IF c # 0 THEN c ELSE NumCmp(ta.rev, tb.rev)
@@ -119,25 +132,20 @@ OpHolds(op, sign) == CASE op = "GT" -> sign > 0
 TestComp(x, op, y) == OpHolds(op, CompCmp(x, y))
 B2S(b) == IF b THEN "T" ELSE "F"        \* loop results: "T", "F" or "fall"
 
-RECURSIVE CommonLoop(_, _, _, _)
-CommonLoop(l, op, r, i) ==
-    IF i > MinOf(Len(l.ver), Len(r.ver)) THEN "fall"
-    ELSE IF l.ver[i] # r.ver[i] THEN B2S(TestComp(l.ver[i], op, r.ver[i]))
-    ELSE CommonLoop(l, op, r, i + 1)
-RECURSIVE PadLeftLoop(_, _, _, _)      \* lhs shorter: 0 against rhs[i]
-PadLeftLoop(l, op, r, i) ==
-    IF i > Len(r.ver) THEN "fall"
-    ELSE IF r.ver[i] # Zero THEN B2S(TestComp(Zero, op, r.ver[i]))
-    ELSE PadLeftLoop(l, op, r, i + 1)
-RECURSIVE PadRightLoop(_, _, _, _)     \* lhs longer: lhs[i] against 0
-PadRightLoop(l, op, r, i) ==
-    IF i > Len(l.ver) THEN "fall"
-    ELSE IF l.ver[i] # Zero THEN B2S(TestComp(l.ver[i], op, Zero))
-    ELSE PadRightLoop(l, op, r, i + 1)
+\* each loop runs to the first position that decides ("T" / "F"), or falls through
+CommonLoop(l, op, r, i0) ==
+    LET i == FirstWhere(i0, MinOf(Len(l.ver), Len(r.ver)), LAMBDA j : l.ver[j] # r.ver[j])
+    IN IF i = 0 THEN "fall" ELSE B2S(TestComp(l.ver[i], op, r.ver[i]))
+PadLeftLoop(l, op, r, i0) ==          \* lhs shorter: 0 against rhs[i]
+    LET i == FirstWhere(i0, Len(r.ver), LAMBDA j : r.ver[j] # Zero)
+    IN IF i = 0 THEN "fall" ELSE B2S(TestComp(Zero, op, r.ver[i]))
+PadRightLoop(l, op, r, i0) ==         \* lhs longer: lhs[i] against 0
+    LET i == FirstWhere(i0, Len(l.ver), LAMBDA j : l.ver[j] # Zero)
+    IN IF i = 0 THEN "fall" ELSE B2S(TestComp(l.ver[i], op, Zero))
 
 RevTest(l, op, r) == OpHolds(op, NumCmp(l.rev, r.rev))
 
-DeweyCmpAlg(l, op, r) ==
+DeweyCmpAlgV(l, op, r) ==
     LET c == CommonLoop(l, op, r, 1) IN
     IF c # "fall" THEN c = "T"
     ELSE IF Len(l.ver) < Len(r.ver) THEN
@@ -148,6 +156,7 @@ DeweyCmpAlg(l, op, r) ==
          IN IF p # "fall" THEN p = "T" ELSE RevTest(l, op, r)
     ELSE RevTest(l, op, r)
 
+DeweyCmpAlg(l, op, r) == Let2(l, r, LAMBDA x, y : DeweyCmpAlgV(x, op, y))
 (***************************************************************************)
 (* Dewey::new - the operator scan - and Dewey::matches.                    *)
 (***************************************************************************)
